@@ -199,7 +199,7 @@ func cmpArr(res *tensor.Dense, want ref.Arr, what string, approx bool) *core.Fai
 }
 
 func c08Reduce(r *core.Run, d ref.DT, shape []int, lay, vs, op string, f func(a, b interface{}) interface{}, axes []int, api string, arr ref.Arr) {
-	id := fmt.Sprintf("C08|%s|%s|%s|%s|%s|axes=%s|%s", op, d.Name, shapeStr(shape), lay, vs, strings.ReplaceAll(fmt.Sprint(axes), " ", ","), api)
+	id := fmt.Sprintf(propPfx+"C08|%s|%s|%s|%s|%s|axes=%s|%s", op, d.Name, shapeStr(shape), lay, vs, strings.ReplaceAll(fmt.Sprint(axes), " ", ","), api)
 	if r.ReplayCase != "" && id != r.ReplayCase {
 		return
 	}
@@ -258,7 +258,7 @@ func c08Arg(r *core.Run, d ref.DT, shape []int, lay, vs, am string, ax int, api 
 	if ax < 0 {
 		axn = "all"
 	}
-	id := fmt.Sprintf("C08|%s|%s|%s|%s|%s|axis=%s|%s", am, d.Name, shapeStr(shape), lay, vs, axn, api)
+	id := fmt.Sprintf(propPfx+"C08|%s|%s|%s|%s|%s|axis=%s|%s", am, d.Name, shapeStr(shape), lay, vs, axn, api)
 	if r.ReplayCase != "" && id != r.ReplayCase {
 		return
 	}
@@ -361,7 +361,7 @@ func c08Arg(r *core.Run, d ref.DT, shape []int, lay, vs, am string, ax int, api 
 }
 
 func c08Generic(r *core.Run, d ref.DT, shape []int, lay, name string, f func(a, b interface{}) interface{}, ax int, arr ref.Arr) {
-	id := fmt.Sprintf("C08|Reduce:%s|%s|%s|%s|axis=%d", name, d.Name, shapeStr(shape), lay, ax)
+	id := fmt.Sprintf(propPfx+"C08|Reduce:%s|%s|%s|%s|axis=%d", name, d.Name, shapeStr(shape), lay, ax)
 	if r.ReplayCase != "" && id != r.ReplayCase {
 		return
 	}
